@@ -263,7 +263,8 @@ def evaluate(prop, results, hangs, st, bound_check=False):
             if oc == "PANIC":
                 oc = " ".join(impl.split(" ")[:2])
             st.outcomes[oc] = st.outcomes.get(oc, 0) + 1
-            if model.startswith("SKIP") or model.startswith("NONFINITE") or impl == "WRONGPROFILE" or impl == "MODELONLY":
+            if (model.startswith("SKIP") or model.startswith("NONFINITE") or impl == "WRONGPROFILE" or impl == "MODELONLY"
+                    or (impl.startswith("BADREQ unresolved_reference") and model.startswith("BADREQ"))):
                 st.skipped_runs += 1
                 continue
             h = hashlib.sha1(req.encode()).hexdigest()
@@ -275,7 +276,7 @@ def evaluate(prop, results, hangs, st, bound_check=False):
             else:
                 st.agree += 1
             # C03: outcome and event bound, judged on valid operands only
-            if bound_check and not invalid and kind in ("BOOL", "SUBDIV"):
+            if bound_check and not invalid and kind in ("BOOL", "SUBDIV") and "@" not in req:
                 e = edges_in_req(req)
                 bound = 4 * e * e + 2 * e + 16
                 if impl.startswith("BUDGET"):
@@ -323,6 +324,9 @@ def evaluate(prop, results, hangs, st, bound_check=False):
             st.passed += npy - len(set(i for i, _ in bad))
             st.check_skips -= npy
             for k, msg in extra.c16_box_oracle(r):
+                findings.append(Finding("O", r, "run %s: %s" % (k, msg), run=k))
+        if prop in ("C16", "C10", "C03", "C08"):
+            for k, msg in extra.function_oracle(r):
                 findings.append(Finding("O", r, "run %s: %s" % (k, msg), run=k))
         if prop in ("C17", "C18"):
             for k, msg in extra.c17_oracle(r):
@@ -380,13 +384,15 @@ def build_cases(prop, tier, rng):
             out.append(("exh2x2", extra.exhaustive_cells(prop, 2, 2), False))
     elif prop == "C03":
         n = 150 if q else 4000
-        pairs = corpus_pairs(400) + structural_pairs() + gen_pairs(rng, ["g1", "g2", "g3", "g4", "g5", "g3", "g5"], n)
+        pairs = corpus_pairs(400) + structural_pairs() + gen_pairs(rng, ["g1", "g2", "g3", "g4", "g5", "g3", "g5", "g5z", "g10"], n)
         out.append(("release", plans.plan_core("C03", rng, pairs, dbg=False), False))
         out.append(("debug", plans.plan_core("C03", rng, pairs, dbg=True), True))
         p32 = gen_pairs(rng, ["g1", "g4f32", "g2"], n // 3)
         out.append(("f32-release", plans.plan_core("C03", rng, p32, prec="f32"), False))
         out.append(("f32-debug", plans.plan_core("C03", rng, p32, prec="f32", dbg=True), True))
         out.append(("large", extra.large_cases(2000 if q else 60000), False))
+        out.append(("fn", extra.function_cases(rng, 300 if q else 5000, prec="f64"), False))
+        out.append(("fn32-dbg", extra.function_cases(rng, 200 if q else 3000, prec="f32", dbg=True), True))
     elif prop == "C05":
         n = 200 if q else 5000
         out.append(("c05", plans.plan_c05(rng, corpus_pairs(150) + structural_pairs() + gen_pairs(rng, fams_all, n)), False))
@@ -408,10 +414,10 @@ def build_cases(prop, tier, rng):
         pairs = structural_pairs() + gen_pairs(rng, ["g1", "g4f32", "g2", "g1", "g4f32", "g3"], n)
         out.append(("f32", plans.plan_core("C10", rng, pairs, prec="f32"), False))
         out.append(("f32-vs-f64", extra.f32_f64_cases(rng, gen_pairs(rng, ["g1", "g2"], n // 2)), False))
-        out.append(("fn32", extra.function_cases(rng, 300 if q else 5000, prec="f32"), False))
+        out.append(("fn32", extra.function_cases(rng, 1000 if q else 10000, prec="f32"), False))
     elif prop == "C11":
-        n = 50 if q else 1200
-        out.append(("c11", plans.plan_c11(rng, gen_pairs(rng, ["g1", "g1", "g2", "g4"], n)), False))
+        n = 240 if q else 3000
+        out.append(("c11", plans.plan_c11(rng, corpus_pairs(40) + gen_pairs(rng, ["g1", "g1", "g2", "g10", "g1", "g4"], n)), False))
     elif prop == "C12":
         n = 60 if q else 600
         out.append(("c12", plans.plan_core("C12", rng, corpus_pairs(80) + gen_pairs(rng, fams_all, n)), False))
@@ -518,7 +524,8 @@ def run_property(prop, tier, seed, replay, build=True):
     findings = []
     groups = build_cases(prop, tier, rng)
     for label, cases, dbg in groups:
-        results, hangs = runner.execute([c.text() for c in cases], dbg=dbg, tag="%s-%s" % (prop, label))
+        results, hangs = runner.execute([c.text() for c in cases], dbg=dbg, tag="%s-%s" % (prop, label),
+                                        timeout=(90 if tier == "quick" else 900))
         fs = evaluate(prop, results, hangs, st, bound_check=(prop == "C03"))
         for f in fs:
             f.group = label
